@@ -698,6 +698,8 @@ class BasicLexer(AbstractBasicLexer):
                 t.end_pos = line_ctr.char_pos
                 if t.type in self.callback:
                     t = self.callback[t.type](t)
+                    # The callback may re-type the token (e.g. a string terminal embedded in a regexp terminal)
+                    ignored = ignored or (isinstance(t, Token) and t.type in self.ignore_types)
                 if not ignored:
                     if not isinstance(t, Token):
                         raise LexError("Callbacks must return a token (returned %r)" % t)
